@@ -6,6 +6,7 @@ CONSTANTS
   ForgetCloseOnFault = FALSE
   StaleLengthOnRenderFault = FALSE
   StatusStringAsIs = FALSE
+  ReturnOnDisconnect = FALSE
   Tier = "full"
   Ifaces = {"wsgi", "wsgifw", "asgi"}
   Codes = {200, 204, 304, 100, 101, 404, 299}
